@@ -240,10 +240,31 @@ def canon_effects(effects) -> str:
         return summary.show_effects(effects)
     import itertools
 
-    rows = {}
+    implied = _isinstance_implications(atoms)
+    outcome_of = {}
     for values in itertools.product((True, False), repeat=len(atoms)):
         asg = dict(zip(atoms, values))
-        rows.setdefault("; ".join(flat(effects, asg)), []).append(values)
+        if any(asg[a] and not asg[b] for a, b in implied):
+            continue  # no object is an instance of the subclass and not of its base
+        outcome_of[values] = "; ".join(flat(effects, asg))
+    # an atom the outcome does not depend on (whatever the other atoms are, every possible value of it leads to the same
+    # effects) is not part of the table: `if A: x elif B: x` and `if A or B: x` name different tests for one behaviour
+    keep = list(range(len(atoms)))
+    for i in range(len(atoms)):
+        rest = [j for j in keep if j != i]
+        groups = {}
+        for values, outcome in outcome_of.items():
+            groups.setdefault(tuple(values[j] for j in rest), set()).add(outcome)
+        if i in keep and all(len(g) == 1 for g in groups.values()):
+            keep = rest
+    if len(keep) < len(atoms):
+        outcome_of = {tuple(values[j] for j in keep): outcome for values, outcome in outcome_of.items()}
+        atoms = [atoms[j] for j in keep]
+    if not atoms:
+        return next(iter(outcome_of.values()))
+    rows = {}
+    for values, outcome in outcome_of.items():
+        rows.setdefault(outcome, []).append(values)
     # print the table grouped by outcome: outcome <- the assignments that lead to it
     parts = []
     for outcome, vals in sorted(rows.items()):
@@ -460,6 +481,7 @@ def reference_paths(source: str, params=None, like=None, repo=None):
     fn = ast.parse(source.strip("\n")).body[0]
     normal._tail_pass(fn)
     normal._allany_pass(fn)
+    normal._dict_merge_pass(fn)
     normal._redundant_guard_pass(fn)
     normal._unroll_pass(fn)
     normal._while_true_pass(fn)
